@@ -74,6 +74,10 @@ def make_plan(seed: int, tier: str, opts: dict) -> dict:
     plan["hot_rate"] = r.choice([0.0, 0.15, 0.4]) if tier == "thorough" else r.choice([0.0, 0.0, 0.15, 0.4])
     if race:
         plan["hot_rate"], plan["line_rate"] = 0.4, 0.0
+    # the OS deschedules the user thread for a while in the middle of a lifecycle call (between two node starts, between a state flip and
+    # the wait that follows it, ...): mostly with the wall clock, where time that passes is visible to the nodes
+    if not race and r.random() < (opts.get("pause_p_wall", 0.7) if wall else opts.get("pause_p_sim", 0.1)):
+        plan["pause_rate"] = r.choice([0.001, 0.003, 0.008])
     plan["spin_guard"] = True  # line tracing always on: a task that spins without reaching a synchronisation point is a (deterministic) livelock verdict
     return plan
 
@@ -107,6 +111,23 @@ def run_plan(plan: dict, replay=None) -> dict:
                 x["signature"] = x["clause"]
                 x["episode"] = eo.plan["eps_id"]
                 viol.append(x)
+        if plan.get("clock") == "wall" and eo.record is not None and eo.t_end is not None:
+            # wall clock: the episode's clock starts at 0 somewhere after the user began the episode, so nothing in its record can carry a
+            # time later than the (virtual) wall time the episode has lasted
+            import numpy as onp
+
+            elapsed = eo.t_end - eo.t_begin
+            for n, r_ in eo.record.nodes.items():
+                cols = [("ts_start", r_.steps.ts_start), ("ts_end", r_.steps.ts_end)]
+                for u, ir in (r_.inputs or {}).items():
+                    if ir.messages is not None:
+                        cols += [(f"ts_sent[{u}]", ir.messages.ts_sent), (f"ts_recv[{u}]", ir.messages.ts_recv)]
+                for f, col in cols:
+                    a = onp.asarray(col, dtype=float).reshape(-1)
+                    if len(a) and float(a.max()) > elapsed + 1e-3:
+                        viol.append(dict(clause="iso-timestamp-later-than-the-episode-has-lasted", signature="iso-timestamp-later-than-the-episode-has-lasted", episode=eo.plan["eps_id"],
+                                         node=n, field=f, value=float(a.max()), episode_lasted=elapsed))
+                        break
     res.update(common.summarise(ro, plan, verdicts, extra_sums=dict(lifecycle_calls=sum(e.calls_returned for e in ro.episodes),
                                                                    record_unavailable=sum(1 for e in ro.episodes if e.record_error))))
     res["dicts"]["call_kinds"] = {}
